@@ -83,7 +83,7 @@ func RunC13(c *lib.Ctx) {
 		plans[i].ds = GenDigests(r, plans[i].fam, n)
 		plans[i].ops = GenPartition(r, n, r.Intn(5))
 	}
-	parallel(nlogs, 10, func(pi int) {
+	parallel(nlogs, workersN(), func(pi int) {
 		p := plans[pi]
 		id := fmt.Sprintf("log%d", pi)
 		if c.Only != "" && c.Only != id {
